@@ -30,6 +30,10 @@ ASSUMPTIONS = [
 ]
 
 
+def _diff_fields(a: dict, b: dict) -> str:
+    return "; ".join(f"{k}: {a.get(k)} -> {b.get(k)}" for k in sorted(set(a) | set(b)) if a.get(k) != b.get(k))[:400]
+
+
 def _structs(ds):
     return [C08._struct(m) for m in ds.mazes]
 
@@ -92,15 +96,19 @@ def check(case: dict):
 
     spec = case["target"]
     cfg = L.make_cfg(spec)
+    fields0 = L.cfg_fields(cfg)
     try:
         ref_ds = MazeDataset.generate(cfg)
     except ValueError as e:
         core.discard_if_unsatisfiable(e, "C04:generate")
+    require(L.cfg_fields(cfg) == fields0, "C04:generate:config-modified", f"generate changed the configuration object passed in: {_diff_fields(fields0, L.cfg_fields(cfg))}")
     ref = _structs(ref_ds)
     require(len(ref) == spec["n_mazes"], "C04:generate:length", f"{len(ref)} mazes for n_mazes={spec['n_mazes']}")
     apply_history(case["history"])
     cfg2 = L.make_cfg(spec) if case.get("fresh_cfg", True) else cfg
+    fields_before = L.cfg_fields(cfg2)
     before = json.dumps(cfg2.serialize(), default=str, sort_keys=True)
+    require(L.cfg_fields(cfg2) == fields_before, "C04:serialize:config-modified", f"serializing a configuration changed it: {_diff_fields(fields_before, L.cfg_fields(cfg2))}")
     filters_obj = cfg2.applied_filters
     filters_copy = [dict(f) for f in cfg2.applied_filters]
     route = case.get("route", "generate")
@@ -137,6 +145,7 @@ def check(case: dict):
         labels.append("filters" if names_ else "no-filters")
     after = json.dumps(cfg2.serialize(), default=str, sort_keys=True)
     require(after == before, f"C04:{route}:config-modified", "the configuration object passed in changed")
+    require(L.cfg_fields(cfg2) == fields_before, f"C04:{route}:config-modified", f"the configuration object passed in changed: {_diff_fields(fields_before, L.cfg_fields(cfg2))}")
     require([dict(f) for f in cfg2.applied_filters] == filters_copy and cfg2.n_mazes == spec["n_mazes"],
             f"C04:{route}:config-filters-modified", f"applied_filters / n_mazes of the passed config changed: {cfg2.applied_filters}, {cfg2.n_mazes}")
     return {"nt": len(case["history"]) >= 1, "labels": labels}
